@@ -46,6 +46,18 @@ CHECKS["C02"] = {
     "level_text": "every case of the finite lattice is executed and compared coefficient by coefficient with an independent reference; by linearity in the data the basis covers all data for those durations; structure classes N=1/2/3/>=4 all enumerated",
 }
 
+CHECKS["C18"] = {
+    "engine": "E1 lattice explorer",
+    "jobs": lambda tier: per_dim("C18.cpp", "C18", tier, quick=(1,), thorough=(1, 3)),
+    "rule": "unit = (order, ratio r, alphabet, N, duration word); durations {1/sqrt r, sqrt r} (all 2^N placements) and {1/sqrt r, 1, sqrt r} (all 3^N); every unit computes, in long double from the published coefficients, the scaled residual of every defining equation (interpolation, boundary state k, continuity of derivative k) for the full data basis + generic data; non-trivial = the word contains both the shortest and the longest letter (ratio actually attained)",
+    "bounds": {"quick": "3 orders x DIM 1 x r in {2,4,8,16,32,50,64,100} x (N 2..8 all 2^N words + N 2..4 all 3^N words) x full data basis",
+               "thorough": "3 orders x DIM {1,3} x r in {2,4,8,16,32,50,64,100} x (N 2..10 all 2^N words + N 2..6 all 3^N words) x full data basis"},
+    "thresholds": {"scaled residual (the property's own)": 1e-3},
+    "assumptions": ASSUME_COMMON,
+    "technique": TECH_E1 + "; oracle = long-double residuals of the defining equations; failures matched tuple-by-tuple against known_findings.txt",
+    "level_text": "every placement of short/long segments up to N=10 (2 letters) / N=6 (3 letters) at 8 ratios up to 100 is executed; residuals of all defining equations computed in extended precision; the septic high-order-continuity loss (F1) is a recorded known finding, everything outside its region is reported",
+}
+
 NOT_APPLICABLE = {}
 
 ENGINES = [
